@@ -161,7 +161,7 @@ def check(run) -> None:
                   "MaxNow": 500 if q else 800, "MaxDepth": depth, "AllowLeave": leave}
         cfg = make_cfg(consts, invs, [], constraint="DepthOK")
         name = f"Sched_n{n}_{policy[:2]}_m{mct}_a{aging}_r{int(rot)}" + ("_leave" if leave else "")
-        res = run.tlc("Scheduler", cfg, name=name, workers=8, timeout_s=900)
+        res = run.tlc("Scheduler", cfg, name=name, workers=1, timeout_s=900)
         run.model_must_hold(res)
         cases = [(consts, t) for t in res.emitted if t["obs"]["op"] not in ("advance", "leave")]
         # pre-states differing only in `since`/`pend` are identical for the implementation
